@@ -61,6 +61,11 @@ def layouts(tier: str) -> list[dict]:
     add("w8-1-gap-1", [_reg("r0", "R0", 0, 8, [_bf("r0f0", "F0", 1), _gap(6), _bf("r0f2", "F2", 1)])])
     add("w16-shift", [_reg("r0", "R0", 0, 16, [_bf("r0f0", "F0", 4, proc="SHIFT_RIGHT:COUNT=2"),
                                               _bf("r0f1", "F1", 12)])])
+    # two fields with the same processor type and different parameters (and a second register with a third)
+    add("w32-two-shifts", [_reg("r0", "R0", 0, 32, [_bf("r0f0", "F0", 8, proc="SHIFT_RIGHT:COUNT=2"),
+                                                   _bf("r0f1", "F1", 8, proc="SHIFT_RIGHT:COUNT=4"), _bf("r0f2", "F2", 16)]),
+                           _reg("r1", "R1", 4, 16, [_bf("r1f0", "G0", 12, proc="SHIFT_RIGHT:COUNT=8"), _bf("r1f1", "G1", 4)])],
+        depth_q=2, depth_t=3)
     add("w32-two-regs", [_reg("r0", "R0", 0, 32, [_bf("r0f0", "F0", 1), _bf("r0f1", "F1", 30), _bf("r0f2", "F2", 1)], reset=0),
                          _reg("r1", "R1", 4, 32, None, reset=0x12345678)], depth_q=3, depth_t=4)
     add("w32-le", [_reg("r0", "R0", 0, 32, [_bf("r0f0", "F0", 16), _bf("r0f1", "F1", 16)]),
